@@ -545,6 +545,10 @@ func (u *Unmarshaler) processFieldNotFromString(fieldType reflect.Type, value re
 			return u.processFieldPrimitive(fieldType, value, mapValue, opts, fullName)
 		}
 
+		if err := validateValueInOptions(dur, opts.options()); err != nil {
+			return err
+		}
+
 		return fillDurationValue(fieldType.Kind(), value, dur)
 	default:
 		return u.processFieldPrimitive(fieldType, value, mapValue, opts, fullName)
